@@ -2064,17 +2064,23 @@ class Wtp:
 
 
 def detect_expand_template_loop(stack: list[str]) -> bool:
-    # return `True` if find repeat pattern in expand stack
+    # Return `True` if the template on top of the expand stack is already
+    # being expanded in an enclosing template *body* (as MediaWiki does).
+    # Arguments are expanded in the frame of the caller, so a template whose
+    # argument ("ARGVAL-"/"ARGNAME" entry directly above it) is being expanded
+    # does not enclose what follows.
     # GH issue tatuylonen/wiktextract#894
-    stack_len = len(stack)
-    if stack_len < 2 or stack[-1] not in stack[:-1]:
+    if len(stack) < 2 or stack[-1] not in stack[:-1]:
         return False
-    for pattern_size in range(1, stack_len // 2 + 1):
-        for i in range(stack_len - pattern_size):
-            if (stack_len - i) % pattern_size == 0:
-                pattern = stack[i : i + pattern_size]
-                if pattern[0].startswith("ARGVAL-"):
-                    continue
-                if pattern * ((stack_len - i) // pattern_size) == stack[i:]:
-                    return True
+    in_argument = False
+    for label in reversed(stack[:-1]):
+        if label == "ARGNAME" or (
+            label.startswith("ARGVAL-") and label != "ARGVAL-NO-TEMPLATE"
+        ):
+            in_argument = True
+        elif label.startswith("Template:"):
+            if in_argument:
+                in_argument = False
+            elif label == stack[-1]:
+                return True
     return False
